@@ -240,22 +240,42 @@ def _nonempty_aux(ctx, rule='R01.6') -> List[Ob]:
     fi = ctx.repo.func('pyspike.SpikeTrain', 'SpikeTrain.get_spikes_non_empty')
     src = _ast.unparse(fi.node)
     t = "SpikeTrain.get_spikes_non_empty: a train without spikes is represented by [t_start, t_end] (one interval spanning the recording); otherwise the spikes themselves"
-    ifs = [n for n in fi.node.body if isinstance(n, _ast.If)]
-    good = False
     from . import canon as C
-    if len(ifs) == 1 and len(ifs[0].body) == 1 and isinstance(ifs[0].body[0], _ast.Return):
-        try:
-            c = C.canon_cond(ifs[0].test, C.Env())
-            ln = C.atom(('call', 'len', (C.atom(('attr', ('n', 'self'), 'spikes')),)))
-            empty_tests = (C.mk_cmp('lt', ln, C.ONE), C.mk_cmp('eq', ln, C.ZERO), C.mk_cmp('le', ln, C.ZERO))
-            rest = ifs[0].orelse or fi.node.body[fi.node.body.index(ifs[0]) + 1:]
-            rv = _ast.unparse(ifs[0].body[0].value).replace(' ', '')
-            ev = _ast.unparse(rest[0].value).replace(' ', '') if rest and isinstance(rest[0], _ast.Return) else ''
-            good = c in empty_tests and '[self.t_start,self.t_end]' in rv and ev == 'self.spikes'
-        except C.CanonError:
-            good = False
+    from .rules_classes import MethodPaths
+    from .compare import Inconclusive
+    from .report import inconclusive
+    good = False
+    detail = src[:300]
+    try:
+        mp = MethodPaths(fi).run()
+        ln = C.atom(('call', 'len', (C.atom(('attr', ('n', 'self'), 'spikes')),)))
+        empty = {C.mk_cmp('lt', ln, C.ONE), C.mk_cmp('eq', ln, C.ZERO), C.mk_cmp('le', ln, C.ZERO)}
+        nonempty = {C.mk_cmp('gt', ln, C.ZERO), C.mk_cmp('ge', ln, C.ONE), C.mk_cmp('ne', ln, C.ZERO)}
+        empty |= {C.mk_not(c) for c in nonempty}
+        nonempty |= {C.mk_not(c) for c in empty}
+        spikes = C.atom(('attr', ('n', 'self'), 'spikes'))
+        edges = C.atom(('list', (C.atom(('attr', ('n', 'self'), 't_start')), C.atom(('attr', ('n', 'self'), 't_end')))))
+        seen = {'empty': 0, 'nonempty': 0}
+        good = len(mp.results) == 2
+        for v, conds, env, stores, node in mp.results:
+            cs = set(conds)
+            if cs & empty and not cs & nonempty:
+                # the returned value is built from exactly the two edges (np.array / np.unique wrappers allowed)
+                atoms = C.atoms_of(v) if v is not None else set()
+                has_edges = ('attr', ('n', 'self'), 't_start') in atoms and ('attr', ('n', 'self'), 't_end') in atoms
+                good = good and has_edges
+                seen['empty'] += 1
+            elif cs & nonempty and not cs & empty:
+                good = good and v == spikes
+                seen['nonempty'] += 1
+            else:
+                good = False
+        good = good and seen == {'empty': 1, 'nonempty': 1}
+        detail = f"paths: {[(C.show(v) if v is not None else None, [C.show(c) for c in conds]) for v, conds, *_ in mp.results]}"[:400]
+    except (Inconclusive, C.CanonError) as e:
+        return [inconclusive(rule, t, fi.loc(), str(e), construct='SpikeTrain.get_spikes_non_empty')]
     return [ok(rule, t, fi.loc(), construct='SpikeTrain.get_spikes_non_empty') if good else
-            violation(rule, t, fi.loc(), key='pyspike/SpikeTrain.py::get_spikes_non_empty::aux-edges', detail=src[:300])]
+            violation(rule, t, fi.loc(), key='pyspike/SpikeTrain.py::get_spikes_non_empty::aux-edges', detail=detail)]
 
 
 def _epilogue_trim(ctx, kernels, rule) -> List[Ob]:
